@@ -27,6 +27,10 @@ def call(obj, sym: Sym, resolve: Callable[[Any], Any] = lambda a: a):
         except AssertionError:
             pass
         return None
+    if sym.name == "READ":
+        # an observation in the middle of a history (reads only; whatever it returns is ignored here)
+        resolve(("READ", obj))
+        return None
     m = getattr(obj, sym.name)
     if sym.arg is NOARG or sym.arg == NOARG:
         return m()
